@@ -69,6 +69,8 @@ class RSocketClient(RSocketBase):
     async def connect(self):
         logger().debug('%s: connecting', self._log_identifier())
         self._is_closing = False
+        self._is_server_alive = True  # a keepalive timeout on the previous connection must not outlive it
+        self._update_last_keepalive()
         self._reset_internals()
         self._start_tasks()
 
